@@ -5,9 +5,11 @@ import (
 	"fmt"
 	"image"
 	"os"
+	"sort"
 	"strconv"
 	"strings"
 	"sync"
+	"sync/atomic"
 	"time"
 	"unicode/utf8"
 
@@ -179,6 +181,37 @@ func asciiCodewords(t string) int {
 
 func q(s string) string { return strconv.QuoteToASCII(s) }
 
+// show quotes a text for messages; long homogeneous runs are written as "c"xN.
+func show(s string) string {
+	rs := []rune(s)
+	if len(rs) <= 40 {
+		return q(s)
+	}
+	var parts []string
+	lit := []rune{}
+	flush := func() {
+		if len(lit) > 0 {
+			parts = append(parts, q(string(lit)))
+			lit = lit[:0]
+		}
+	}
+	for i := 0; i < len(rs); {
+		j := i
+		for j < len(rs) && rs[j] == rs[i] {
+			j++
+		}
+		if j-i >= 8 {
+			flush()
+			parts = append(parts, q(string(rs[i]))+"x"+strconv.Itoa(j-i))
+		} else {
+			lit = append(lit, rs[i:j]...)
+		}
+		i = j
+	}
+	flush()
+	return clip(strings.Join(parts, "+"))
+}
+
 func clip(s string) string {
 	if len(s) > 160 {
 		return s[:150] + "…(" + strconv.Itoa(len(s)) + " bytes)"
@@ -202,11 +235,20 @@ type pre struct {
 	cws      []byte
 }
 
+// errText prints an error with its whole chain (gozxing exceptions format their cause only
+// through fmt).
+func errText(e error) string {
+	if e == nil {
+		return "<nil>"
+	}
+	return strings.Join(strings.Fields(fmt.Sprint(e)), " ")
+}
+
 func errClass(e error) string {
 	if e == nil {
 		return "no-error"
 	}
-	s := e.Error()
+	s := errText(e)
 	switch {
 	case strings.Contains(s, "Illegal character"):
 		return "illegal-char"
@@ -303,12 +345,19 @@ var confirmState = map[string]int{} // 0 not started, 1 running, 2 done
 func violate(l *mc.Local, r *result, key string, what func() string, rc rcase) {
 	r.bad = true
 	l.Distinct("outcomes", "violation:"+key)
-	if _, seen := reported.LoadOrStore(key, true); seen && !verbose {
-		chk.Violation(key, "", nil)
+	noteMinimal(key, rc)
+	l.Count("violating_cases", 1)
+	v, seen := reported.LoadOrStore(key, new(int32))
+	flag := v.(*int32)
+	if seen && !verbose {
+		if atomic.LoadInt32(flag) != 0 { // the first case of the key has been handed to the engine
+			chk.Violation(key, "", nil)
+		}
 		return
 	}
 	w := what()
 	chk.Violation(key, w, rc)
+	atomic.StoreInt32(flag, 1)
 	if verbose {
 		fmt.Printf("  -> %s: %s\n", key, w)
 	}
@@ -316,15 +365,81 @@ func violate(l *mc.Local, r *result, key string, what func() string, rc rcase) {
 
 var reported sync.Map
 
+// The engine keeps the first case of every key; in addition the shortest violating input of
+// every key (ties: fewer hints, then lexicographic) is tracked and listed at the end of the run.
+type minEntry struct {
+	mu sync.Mutex
+	n  int64 // length of the best input so far (atomic read for the fast path)
+	rc rcase
+}
+
+var minimal sync.Map // key -> *minEntry
+
+func hintWeight(h hints) int {
+	w := 0
+	if h.Shape != 0 {
+		w++
+	}
+	if h.MinR != 0 {
+		w++
+	}
+	if h.MaxR != 0 {
+		w++
+	}
+	return w
+}
+
+func noteMinimal(key string, rc rcase) {
+	n := int64(len(rc.Text))*4 + int64(hintWeight(rc.Hints))
+	v, ok := minimal.Load(key)
+	if !ok {
+		v, _ = minimal.LoadOrStore(key, &minEntry{n: 1 << 62})
+	}
+	e := v.(*minEntry)
+	if n > atomic.LoadInt64(&e.n) {
+		return
+	}
+	e.mu.Lock()
+	if n < e.n || n == e.n && rc.Text < e.rc.Text {
+		atomic.StoreInt64(&e.n, n)
+		e.rc = rc
+	}
+	e.mu.Unlock()
+}
+
+// reportMinimal prints and records the shortest violating input per key.
+func reportMinimal() {
+	var keys []string
+	minimal.Range(func(k, v interface{}) bool { keys = append(keys, k.(string)); return true })
+	sort.Strings(keys)
+	for _, k := range keys {
+		v, _ := minimal.Load(k)
+		e := v.(*minEntry)
+		line := fmt.Sprintf("shortest input for %s: %s%s (family %s)", k, q(e.rc.Text), e.rc.Hints, e.rc.Sub)
+		if len(e.rc.Text) > 60 {
+			line = fmt.Sprintf("shortest input for %s: %s%s (family %s)", k, show(e.rc.Text), e.rc.Hints, e.rc.Sub)
+		}
+		fmt.Println("  " + line)
+		chk.Note(line)
+	}
+}
+
 func reportHang(l *mc.Local, r *result, t string, h hints, p pre, rc rcase) {
 	last := p.steps[len(p.steps)-1]
 	key := "C02/hang/" + keyMode(last.mode) + "-" + errClass(last.err)
-	how := "state unchanged by a dispatch step"
-	if !p.proven {
-		how = fmt.Sprintf("%d dispatch steps without reaching the end", len(p.steps))
+	confirmed := false
+	what := func() string {
+		how := "state unchanged by a dispatch step"
+		if !p.proven {
+			how = fmt.Sprintf("%d dispatch steps without reaching the end", len(p.steps))
+		}
+		w := fmt.Sprintf("EncodeHighLevel(%s%s) never returns: the %s encoder at input position %d returns the error %q, the dispatch loop discards it and calls the same encoder on the same state again (%s)",
+			show(t), h, keyMode(last.mode), last.p0, errText(last.err), how)
+		if confirmed {
+			w += "; confirmed: the real call was still running after 5 s"
+		}
+		return w
 	}
-	what := fmt.Sprintf("EncodeHighLevel(%s%s) never returns: the %s encoder at input position %d returns the error %q, the dispatch loop discards it and calls the same encoder on the same state again (%s)",
-		q(t), h, keyMode(last.mode), last.p0, fmt.Sprint(last.err), how)
 	if !knownKeys[key] {
 		confirmMu.Lock()
 		state := confirmState[key]
@@ -348,8 +463,8 @@ func reportHang(l *mc.Local, r *result, t string, h hints, p pre, rc rcase) {
 				dmenc.EncodeHighLevel(t, shape, min, max)
 			}()
 			returned := false
-			for w := 0; w < 10 && !returned; w++ {
-				l.Beat("confirming livelock of EncodeHighLevel on " + q(t) + h.String())
+			for w := 0; w < 5 && !returned; w++ {
+				l.Beat("confirming livelock of EncodeHighLevel on " + show(t) + h.String())
 				select {
 				case <-done:
 					returned = true
@@ -363,15 +478,15 @@ func reportHang(l *mc.Local, r *result, t string, h hints, p pre, rc rcase) {
 			confirmMu.Unlock()
 			if returned {
 				violate(l, r, "C02/harness/livelock-predicted-but-call-returned", func() string {
-					return "stepper predicted a livelock but EncodeHighLevel returned: " + q(t) + h.String()
+					return "stepper predicted a livelock but EncodeHighLevel returned: " + show(t) + h.String()
 				}, rc)
 				return
 			}
-			what += "; confirmed: the real call was still running after 10 s"
+			confirmed = true
 		}
 	}
 	l.Count("livelock_inputs_not_executed", 1)
-	violate(l, r, key, func() string { return what }, rc)
+	violate(l, r, key, what, rc)
 }
 
 func grayOf(m *gozxing.BitMatrix) *image.Gray {
@@ -395,9 +510,10 @@ func grayOf(m *gozxing.BitMatrix) *image.Gray {
 // symbol) are applied by the callers on the returned results.
 func evalCase(l *mc.Local, sub, t string, h hints, level int) (r result) {
 	l.Count("states", 1)
-	rc := rcase{sub, t, q(t), h, level}
+	sh := show(t)
+	rc := rcase{sub, t, sh, h, level}
 	latin := isLatin1(t)
-	desc := q(t) + h.String()
+	desc := sh + h.String()
 	if verbose {
 		fmt.Printf("case %s level=%d\n", desc, level)
 	}
@@ -411,7 +527,7 @@ func evalCase(l *mc.Local, sub, t string, h hints, level int) (r result) {
 	}
 	if !haveStepper && h.none() && knownHangs[t] && knownKeys[hangKey] {
 		r.hang = true
-		violate(l, &r, hangKey, func() string { return "EncodeHighLevel(" + q(t) + ") does not return (listed input, not executed)" }, rc)
+		violate(l, &r, hangKey, func() string { return "EncodeHighLevel(" + show(t) + ") does not return (listed input, not executed)" }, rc)
 		return r
 	}
 
@@ -434,13 +550,13 @@ func evalCase(l *mc.Local, sub, t string, h hints, level int) (r result) {
 		}
 	}
 	if err != nil {
-		r.refused, r.errText = true, err.Error()
+		r.refused, r.errText = true, errText(err)
 		switch {
 		case !latin:
 			l.Distinct("outcomes", "refused:non-latin1")
 		case h.none() && t != "" && asciiCodewords(t) <= 1558:
 			violate(l, &r, "C02/fits-but-refused", func() string {
-				return fmt.Sprintf("EncodeHighLevel(%s) without hints returns the error %q although the text fits 144x144 even in plain ASCII encodation (%d codewords)", desc, clip(err.Error()), asciiCodewords(t))
+				return fmt.Sprintf("EncodeHighLevel(%s) without hints returns the error %q although the text fits 144x144 even in plain ASCII encodation (%d codewords)", desc, clip(errText(err)), asciiCodewords(t))
 			}, rc)
 		default:
 			l.Distinct("outcomes", "refused:"+errClass(err))
@@ -522,14 +638,14 @@ func evalCase(l *mc.Local, sub, t string, h hints, level int) (r result) {
 		}, rc)
 		if !refOK {
 			l.Count("ref_rejects_lib_accepts", 1)
-			chk.Sample("reference decoder rejects, library decoder returns the text", map[string]interface{}{"text": q(t), "codewords": clipCW(cw), "ref": fmt.Sprint(refErr)})
+			chk.Sample("reference decoder rejects, library decoder returns the text", map[string]interface{}{"text": show(t), "codewords": clipCW(cw), "ref": fmt.Sprint(refErr)})
 		}
 	case libExact && refErr != nil:
 		// non-conforming stream that the library's reader nevertheless reads back: not a violation of
 		// this property (it speaks about the library's own reader); counted and sampled.
 		l.Count("ref_rejects_lib_accepts", 1)
 		l.Distinct("outcomes", "ok-but-reference-rejects")
-		chk.Sample("reference decoder rejects, library decoder returns the text", map[string]interface{}{"text": q(t), "codewords": clipCW(cw), "ref": fmt.Sprint(refErr)})
+		chk.Sample("reference decoder rejects, library decoder returns the text", map[string]interface{}{"text": show(t), "codewords": clipCW(cw), "ref": fmt.Sprint(refErr)})
 	case refOK:
 		// the stream is right, the library's reader is wrong
 		m := keyMode(ti.lastLatch)
@@ -555,7 +671,7 @@ func evalCase(l *mc.Local, sub, t string, h hints, level int) (r result) {
 		}
 		ld := strconv.Quote(libText)
 		if lerr != nil {
-			ld = "error " + lerr.Error()
+			ld = "error " + errText(lerr)
 		}
 		violate(l, &r, key, func() string {
 			return fmt.Sprintf("EncodeHighLevel(%s) = %v (%s, trace %q) does not carry the text: reference decoder: %s; library decoder: %s. %s", desc, clipCW(cw), sym, ti.trace, clip(rd), clip(ld), why)
@@ -680,8 +796,8 @@ func classifyWrong(t, got string, have, refRejects bool, p pre, ti traceInfo) (k
 	}
 	for _, s := range p.steps {
 		if s.err != nil {
-			return "C02/encoder/errors-discarded/" + keyMode(s.mode),
-				fmt.Sprintf("The %s encoder returned the error %q at input[%d:%d]; the dispatch loop of EncodeHighLevel discarded it and went on.", keyMode(s.mode), clip(s.err.Error()), s.p0, s.p1)
+			return "C02/encoder/errors-discarded/" + keyMode(s.mode) + "-" + errClass(s.err),
+				fmt.Sprintf("The %s encoder returned the error %q at input[%d:%d]; the dispatch loop of EncodeHighLevel discarded it and went on.", keyMode(s.mode), clip(errText(s.err)), s.p0, s.p1)
 		}
 	}
 	msgb := latin1Bytes(t)
@@ -704,8 +820,12 @@ func classifyWrong(t, got string, have, refRejects bool, p pre, ti traceInfo) (k
 			if e == mASCII && d != mASCII {
 				kind := "plain"
 				for _, s := range p.steps {
-					if s.c0 <= i && i < s.c1 && s.p0 < len(msgb) && msgb[s.p0] >= 128 {
-						kind = "extended"
+					if s.c0 <= i && i < s.c1 {
+						for _, b := range msgb[s.p0:] {
+							if b >= 128 {
+								kind = "extended" // an extended character is among those left over for ASCII
+							}
+						}
 					}
 				}
 				return "C02/" + keyMode(d) + "/eod-" + kind,
@@ -734,6 +854,11 @@ func classifyWrong(t, got string, have, refRejects bool, p pre, ti traceInfo) (k
 	if !found && len(p.steps) > 0 {
 		em = p.steps[len(p.steps)-1].mode
 	}
+	emName := keyMode(em)
+	if (em == mC40 || em == mText) && len(msgb) > 0 && msgb[len(msgb)-1] >= 128 {
+		// the C40/Text end-of-data code treats a final extended character (3 or 4 values) specially
+		emName += "-lastext"
+	}
 	if em == mB256 && ti.b256ToEnd {
 		return "C02/base256/exact-fill", fmt.Sprintf("The Base 256 segment that starts at input position %d carries the length 0 (\"to the end of the symbol\") followed by a second length byte, which is read as data.", d)
 	}
@@ -741,10 +866,10 @@ func classifyWrong(t, got string, have, refRejects bool, p pre, ti traceInfo) (k
 	if len(gr) < len(tr) {
 		k := len(tr) - len(gr)
 		if string(tr[d+k:]) == string(gr[d:]) {
-			return "C02/dropped/" + keyMode(em), fmt.Sprintf("Input characters [%d:%d] = %s are missing from the symbol; they were consumed by the %s encoder.", d, d+k, q(string(tr[d:d+k])), keyMode(em))
+			return "C02/dropped/" + emName, fmt.Sprintf("Input characters [%d:%d] = %s are missing from the symbol; they were consumed by the %s encoder.", d, d+k, q(string(tr[d:d+k])), keyMode(em))
 		}
 	}
-	return generic + keyMode(em), fmt.Sprintf("The decoded text departs from the input at character %d, which the %s encoder consumed.", d, keyMode(em))
+	return generic + emName, fmt.Sprintf("The decoded text departs from the input at character %d, which the %s encoder consumed.", d, keyMode(em))
 }
 
 func isLatch(c byte) bool {
